@@ -17,7 +17,7 @@ EXPLANATION = (
     "slot; the timed and untimed arms of the action loop run the same calls.")
 NOT_DECIDED = "bit-identity of results; the order in which make_track_id hands out ids"
 
-TECHNIQUE = ('initialiser completeness from AST record fields vs transitive write sets; must-pass rules on reset/reseed/initialisation; observer-inertness by call-graph reachability to non-const view methods; sibling-arm comparison')
+TECHNIQUE = ('initialiser completeness from AST record fields vs transitive write sets; must-pass rules on reset/reseed/initialisation; observer-inertness by call-graph reachability to non-const view methods; sibling-arm comparison; loop-bound provenance (reaching definitions) of the host launcher and who-may-narrow-the-launch by executor type')
 
 UNITS = [
     "src/celeritas/track/InitializeTracksAction.cc",
